@@ -9,6 +9,8 @@
    [wmw_bounded log]: every single write is shorter than 2^32 bytes and ends below 2^64.  Outside that guard
    the model's header encoding truncates (mod 2^32 / 2^64) while its payload does not, so the guard is needed.
 
+   This file: the raw layer and jls_core_wr_data / _index / _summary, jls_track_*.  WmWriteOnce2.v: wr_ts.c, wr_fsr.c.
+   WmWriteOnce3.v: writer.c and the top-level theorems.  WmWriteOnce4.v / 5.v: compositions, crash shape.
    Every top-level name starts with wmw_. *)
 From Coq Require Import NArith ZArith List Bool Lia Arith.
 From Coq Require Import ZifyBool ZifyN ZifyNat.
@@ -51,52 +53,109 @@ Definition wmw_bounded (l : wm_log) : Prop :=
   forall off b, In (WmWrite off b) l -> off + N.of_nat (length b) < fm_two64 /\ N.of_nat (length b) < wmw_two32.
 Definition wmw_good (r : wm_raw) : Prop := wm_fault r = false /\ wmw_bounded (wm_rlog r).
 
-(* fault is sticky and the log only grows *)
-Definition wmw_le (r r' : wm_raw) : Prop := (wm_fault r' = false -> wm_fault r = false) /\ wm_log_ext r r'.
+(* fault is sticky and the log only grows; moreover, as long as nothing faults, the raw layer never stands at
+   position 0 nor has a current chunk at offset 0 ([wmw_pos]: true from jls_raw_open on), and the entries it adds to
+   the log are not writes at offset 0 ([wmw_nz]) - only wr_file_header (open, close) writes there *)
+Definition wmw_pos (r : wm_raw) : Prop := wm_fpos r <> 0 /\ wm_offset r <> 0.
+Definition wmw_nz (l : wm_log) : Prop := forall b, ~ In (WmWrite 0 b) l.
+Definition wmw_le (r r' : wm_raw) : Prop :=
+  exists l, wm_rlog r' = l ++ wm_rlog r /\
+    (wm_fault r' = false -> wm_fault r = false /\ (wmw_pos r -> wmw_pos r' /\ wmw_nz l)).
+
+Lemma wmw_nz_nil : wmw_nz [].
+Proof. intros b H. exact H. Qed.
+Lemma wmw_nz_app : forall a b, wmw_nz a -> wmw_nz b -> wmw_nz (a ++ b).
+Proof. intros a b Ha Hb x H. apply in_app_or in H. destruct H as [H|H]; [exact (Ha x H)|exact (Hb x H)]. Qed.
+Lemma wmw_nz_one : forall o b, o <> 0 -> wmw_nz [WmWrite o b].
+Proof. intros o b Ho x [H|[]]. inversion H. congruence. Qed.
+Lemma wmw_nz_sync : wmw_nz [WmSync].
+Proof. intros x [H|[]]. discriminate. Qed.
+
+Lemma wmw_le_nofault : forall r r', wmw_le r r' -> wm_fault r' = false -> wm_fault r = false.
+Proof. intros r r' (l & _ & H) Hf. exact (proj1 (H Hf)). Qed.
+Lemma wmw_le_log_ext : forall r r', wmw_le r r' -> wm_log_ext r r'.
+Proof. intros r r' (l & L & _). exists l. exact L. Qed.
 
 Lemma wmw_le_refl : forall r, wmw_le r r.
-Proof. intro r. split; [auto|apply wm_log_ext_refl]. Qed.
+Proof. intro r. exists []. split; [reflexivity|]. intro Hf. split; [exact Hf|]. intro Hp. split; [exact Hp|apply wmw_nz_nil]. Qed.
 Lemma wmw_le_trans : forall a b c, wmw_le a b -> wmw_le b c -> wmw_le a c.
-Proof. intros a b c [F1 L1] [F2 L2]. split; [auto|eapply wm_log_ext_trans; eauto]. Qed.
+Proof.
+  intros a b c (l1 & L1 & F1) (l2 & L2 & F2). exists (l2 ++ l1). split; [rewrite L2, L1; apply app_assoc|].
+  intro Hf. destruct (F2 Hf) as [Hfb P2]. destruct (F1 Hfb) as [Hfa P1]. split; [exact Hfa|].
+  intro Hp. destruct (P1 Hp) as [Hpb N1]. destruct (P2 Hpb) as [Hpc N2]. split; [exact Hpc|apply wmw_nz_app; assumption].
+Qed.
 Lemma wmw_bounded_ext : forall l1 l2, wmw_bounded (l1 ++ l2) -> wmw_bounded l2.
 Proof. intros l1 l2 H off b Hin. apply H. apply in_or_app. now right. Qed.
 Lemma wmw_good_le : forall r r', wmw_le r r' -> wmw_good r' -> wmw_good r.
 Proof.
-  intros r r' [F [l L]] [G1 G2]. split; [auto|]. rewrite L in G2. eapply wmw_bounded_ext; eauto.
+  intros r r' (l & L & F) [G1 G2]. split; [exact (proj1 (F G1))|]. rewrite L in G2. eapply wmw_bounded_ext; eauto.
 Qed.
-Lemma wmw_le_same : forall r r', wm_fault r' = wm_fault r -> wm_rlog r' = wm_rlog r -> wmw_le r r'.
-Proof. intros r r' F L. split; [rewrite F; auto|now apply wm_log_ext_same]. Qed.
+(* no new log entry *)
+Lemma wmw_le_nolog : forall r r', wm_fault r' = wm_fault r -> wm_rlog r' = wm_rlog r -> (wmw_pos r -> wmw_pos r') -> wmw_le r r'.
+Proof.
+  intros r r' F L P. exists []. split; [exact L|]. intro Hf. split; [congruence|].
+  intro Hp. split; [exact (P Hp)|apply wmw_nz_nil].
+Qed.
+Lemma wmw_le_same : forall r r', wm_fault r' = wm_fault r -> wm_rlog r' = wm_rlog r ->
+  wm_fpos r' = wm_fpos r -> wm_offset r' = wm_offset r -> wmw_le r r'.
+Proof. intros r r' F L P1 P2. apply wmw_le_nolog; auto. unfold wmw_pos. rewrite P1, P2. auto. Qed.
+(* a fault: only the growth of the log matters *)
+Lemma wmw_le_fault_ext : forall r r', wm_fault r' = true -> wm_log_ext r r' -> wmw_le r r'.
+Proof. intros r r' F [l L]. exists l. split; [exact L|]. rewrite F. discriminate. Qed.
 Lemma wmw_le_fault : forall r r', wm_fault r' = true -> wm_rlog r' = wm_rlog r -> wmw_le r r'.
-Proof. intros r r' F L. split; [rewrite F; discriminate|now apply wm_log_ext_same]. Qed.
+Proof. intros r r' F L. apply wmw_le_fault_ext; [exact F|now apply wm_log_ext_same]. Qed.
 
 Lemma wmw_le_fwrite : forall r b, wmw_le r (wm_bk_fwrite r b).
-Proof. intros. split; [cbn; auto|apply wm_bk_fwrite_log_ext]. Qed.
+Proof.
+  intros r b. exists [WmWrite (wm_fpos r) b]. split; [reflexivity|]. intro Hf. split; [exact Hf|].
+  intros [P1 P2]. split; [|apply wmw_nz_one; exact P1].
+  unfold wmw_pos, wm_bk_fwrite. cbn [wm_fpos wm_offset]. split; [lia|exact P2].
+Qed.
 Lemma wmw_le_chunk_seek : forall r o, wmw_le r (wm_raw_chunk_seek r o).
 Proof.
-  intros r o. unfold wm_raw_chunk_seek. destruct (o =? 0).
+  intros r o. unfold wm_raw_chunk_seek. destruct (o =? 0) eqn:E.
   - apply wmw_le_fault; reflexivity.
-  - apply wmw_le_same; reflexivity.
+  - apply N.eqb_neq in E. apply wmw_le_nolog; [reflexivity|reflexivity|]. intros _. split; cbn; exact E.
 Qed.
 Lemma wmw_le_wr_header : forall r h, wmw_le r (fst (wm_raw_wr_header r h)).
 Proof.
-  intros r h. split; [|apply wm_raw_wr_header_log_ext].
-  unfold wm_raw_wr_header. cbn [fst]. destruct (wm_offset r =? wm_fpos r); cbn; auto.
+  intros r h. unfold wm_raw_wr_header. cbn [fst].
+  set (r1 := if wm_offset r =? wm_fpos r then r else wm_bk_fseek (wm_invalidate r) (wm_offset r)).
+  assert (L1 : wmw_le r r1).
+  { subst r1. destruct (wm_offset r =? wm_fpos r); [apply wmw_le_refl|].
+    apply wmw_le_nolog; [reflexivity|reflexivity|]. intros [P1 P2]. split; cbn; exact P2. }
+  eapply wmw_le_trans; [exact L1|]. eapply wmw_le_trans; [apply (wmw_le_fwrite r1)|].
+  apply wmw_le_same; reflexivity.
 Qed.
-Lemma wmw_rd_header_fault : forall r, wm_fault (wm_raw_rd_header r) = false -> wm_fault r = false.
+Lemma wmw_le_rd_header : forall r, wmw_le r (wm_raw_rd_header r).
 Proof.
   intro r. unfold wm_raw_rd_header.
-  destruct (wm_hdr_valid r); [auto|].
-  destruct (wm_fend r <=? wm_fpos r); [cbn; discriminate|].
-  destruct (wm_offset r =? wm_fpos r); cbn;
-    match goal with |- context [wm_disk_get ?d ?o] => destruct (wm_disk_get d o) end; cbn; auto; discriminate.
+  destruct (wm_hdr_valid r); [apply wmw_le_refl|].
+  destruct (wm_fend r <=? wm_fpos r); [apply wmw_le_fault; reflexivity|].
+  set (r1 := if wm_offset r =? wm_fpos r then r else wm_bk_fseek r (wm_offset r)).
+  assert (L1 : wmw_le r r1).
+  { subst r1. destruct (wm_offset r =? wm_fpos r); [apply wmw_le_refl|].
+    apply wmw_le_nolog; [reflexivity|reflexivity|]. intros [P1 P2]. split; cbn; exact P2. }
+  eapply wmw_le_trans; [exact L1|].
+  destruct (wm_disk_get (wm_disk (wm_set_offset r1 (wm_fpos r1))) (wm_fpos (wm_set_offset r1 (wm_fpos r1)))).
+  - apply wmw_le_nolog; [reflexivity|reflexivity|]. intros [P1 P2]. split; cbn; [lia|exact P1].
+  - apply wmw_le_fault; reflexivity.
 Qed.
+Lemma wmw_rd_header_fault : forall r, wm_fault (wm_raw_rd_header r) = false -> wm_fault r = false.
+Proof. intro r. apply wmw_le_nofault. apply wmw_le_rd_header. Qed.
 Lemma wmw_le_wr_payload : forall r n p, wmw_le r (wm_raw_wr_payload r n p).
 Proof.
-  intros r n p. split; [|apply wm_raw_wr_payload_log_ext].
-  unfold wm_raw_wr_payload. pose proof (wmw_rd_header_fault r) as Hrd.
-  set (r1 := wm_raw_rd_header r) in *.
-  destruct (wm_fault r1) eqn:Ef; [rewrite Ef; discriminate|].
-  intros _. specialize (Hrd eq_refl). exact Hrd.
+  intros r n p. unfold wm_raw_wr_payload.
+  pose proof (wmw_le_rd_header r) as Hrd. set (r1 := wm_raw_rd_header r) in *.
+  destruct (wm_fault r1) eqn:Ef; [exact Hrd|].
+  eapply wmw_le_trans; [exact Hrd|].
+  destruct (n =? 0).
+  - destruct (wm_fend r1 <=? wm_fpos r1); [apply wmw_le_same; reflexivity|apply wmw_le_refl].
+  - set (r2 := if N.of_nat (length p) <? fm_payload_length (wm_hdr r1) then wm_set_fault r1 else r1).
+    assert (L2 : wmw_le r1 r2).
+    { subst r2. destruct (N.of_nat (length p) <? fm_payload_length (wm_hdr r1)); [apply wmw_le_fault; reflexivity|apply wmw_le_refl]. }
+    eapply wmw_le_trans; [exact L2|]. eapply wmw_le_trans; [apply wmw_le_fwrite|]. eapply wmw_le_trans; [apply wmw_le_fwrite|].
+    match goal with |- wmw_le _ (if ?c then _ else _) => destruct c end; [apply wmw_le_same; reflexivity|apply wmw_le_refl].
 Qed.
 Lemma wmw_le_raw_wr : forall r h p, wmw_le r (fst (wm_raw_wr r h p)).
 Proof.
@@ -105,7 +164,7 @@ Proof.
   destruct (wm_raw_wr_header r h) as [r1 h1]. cbn [fst] in *.
   eapply wmw_le_trans; [exact H1|].
   eapply wmw_le_trans; [apply wmw_le_wr_payload|].
-  apply wmw_le_same; reflexivity.
+  apply wmw_le_nolog; [reflexivity|reflexivity|]. intros [P1 P2]. split; cbn; exact P1.
 Qed.
 Lemma wmw_le_update_item_head : forall r head next, wmw_le r (fst (wm_update_item_head r head next)).
 Proof.
@@ -573,7 +632,7 @@ Lemma wmw_sim_append : forall r s h payload r1 h1,
 Proof.
   intros r s h payload r1 h1 Hsim (Ht0 & Ht & Hr & Hm & Hn & Hp) Heq Hgood.
   pose proof (wmw_le_raw_wr r h payload) as Hle. rewrite Heq in Hle. cbn [fst] in Hle.
-  assert (Hflt : wm_fault r = false) by (apply Hle, Hgood).
+  assert (Hflt : wm_fault r = false) by (apply (wmw_le_nofault _ _ Hle), Hgood).
   pose proof (wmw_sim_geom _ _ Hsim) as [Hgeo _].
   assert (Hnone : wo_find (wm_fend r) (wo_exts s) = None).
   { destruct (wo_find (wm_fend r) (wo_exts s)) as [x|] eqn:Ef; [|reflexivity].
@@ -648,7 +707,7 @@ Lemma wmw_sim_link : forall r s head next r2 c,
 Proof.
   intros r s head next r2 c Hsim Href Hnx Heq Hgood.
   pose proof (wmw_le_update_item_head r head next) as Hle. rewrite Heq in Hle. cbn [fst] in Hle.
-  assert (Hflt : wm_fault r = false) by (apply Hle, Hgood).
+  assert (Hflt : wm_fault r = false) by (apply (wmw_le_nofault _ _ Hle), Hgood).
   destruct Href as [H0|(Hlt & Hwf & x & Hf & Hn)].
   - unfold wm_update_item_head in Heq. rewrite H0 in Heq. cbn [N.eqb] in Heq. inversion Heq; subst.
     exists s. split; [exact Hsim|]. split; [reflexivity|apply wmw_fr_refl].
@@ -704,7 +763,7 @@ Lemma wmw_sim_tbl : forall r s o x olds news,
 Proof.
   intros r s o x olds news Hsim Hf Hhead Hpl Htbl Lo Ln HF Hgood.
   pose proof (wmw_le_tbl_rewrite r o (wm_head_payload news)) as Hle.
-  assert (Hflt : wm_fault r = false) by (apply Hle, Hgood).
+  assert (Hflt : wm_fault r = false) by (apply (wmw_le_nofault _ _ Hle), Hgood).
   pose proof (wmw_sim_geom _ _ Hsim) as [Hgeo Hdis].
   destruct (Hgeo _ _ Hf) as [G1 G2].
   assert (Hsz : wo_size (wo_e_hdr x) = 168) by (unfold wo_size; rewrite Hpl; reflexivity).
@@ -743,7 +802,9 @@ Qed.
 
 (* ---------------------------------------------------------------- flush, close *)
 Lemma wmw_le_flush : forall r, wmw_le r (wm_raw_flush r).
-Proof. intro r. split; [auto|]. exists [WmSync]. reflexivity. Qed.
+Proof.
+  intro r. exists [WmSync]. split; [reflexivity|]. intro Hf. split; [exact Hf|]. intro Hp. split; [exact Hp|apply wmw_nz_sync].
+Qed.
 Lemma wmw_sim_flush : forall r s, wmw_sim r s -> wmw_sim (wm_raw_flush r) s.
 Proof.
   intros r s (Hrun & H). split; [|exact H].
@@ -751,10 +812,17 @@ Proof.
   eapply wmw_run_snoc; [exact Hrun|reflexivity].
 Qed.
 
-Lemma wmw_le_close : forall r, wmw_le r (wm_raw_close r).
+(* jls_raw_close writes the file header at offset 0: not a [wmw_le] step; the log grows by that one write and the
+   fault flag is untouched *)
+Lemma wmw_close_log : forall r, wm_rlog (wm_raw_close r) = WmWrite 0 (wm_file_header_bytes (wm_fend r)) :: wm_rlog r /\
+  wm_fault (wm_raw_close r) = wm_fault r.
 Proof.
-  intro r. unfold wm_raw_close, wm_wr_file_header.
-  destruct (wm_fpos r =? 0); (split; [cbn; auto|eexists [_]; reflexivity]).
+  intro r. unfold wm_raw_close, wm_wr_file_header. destruct (wm_fpos r =? 0); split; reflexivity.
+Qed.
+Lemma wmw_good_close : forall r, wmw_good (wm_raw_close r) -> wmw_good r.
+Proof.
+  intros r [G1 G2]. destruct (wmw_close_log r) as [L F]. split; [congruence|].
+  rewrite L in G2. intros off b Hin. apply G2. now right.
 Qed.
 Lemma wmw_sim_close : forall r s, wmw_sim r s ->
   exists s', wmw_sim (wm_raw_close r) s' /\ wo_exts s' = wo_exts s.
